@@ -6,8 +6,11 @@ import Wayfind.Proofs.Registry10
 theorem erase_eq_of_infoOK {lt lt' : LiveT} {e : Bytes × List Part} {i j : Info}
     (hi : infoOK lt e i) (hj : infoOK lt' e j) (ht : lt.template = lt'.template) (hd : lt.data = lt'.data)
     (he : lt.exps = lt'.exps) : eraseCell i = eraseCell j := by
-  obtain ⟨i1, i2, i3, i4, i5⟩ := hi
-  obtain ⟨j1, j2, j3, j4, j5⟩ := hj
+  obtain ⟨i1, i2, ei, hpi, i3, i4, i5⟩ := hi
+  obtain ⟨j1, j2, ej, hpj, j3, j4, j5⟩ := hj
+  rw [he, hpj] at hpi
+  injection hpi with hpi
+  subst hpi
   cases i; cases j
   simp only [eraseCell, Info.mk.injEq] at *
   subst i1 i2 i3 i4 i5 j1 j2 j3 j4 j5
